@@ -338,8 +338,31 @@ func ruleC09SyncBeforeClose(r *Run, p *Program, rule string) {
 				r.bad(rule, construct, p.Pos(instrPos(c.n.In)), "the file is written after its last Sync and then closed", w3.PathTo(c.n)...)
 			}
 		}
+		// nor a release of DB.mu: between a release and the Close other goroutines write the file
 		if !dirty {
-			r.ok(rule, construct, p.Pos(instrPos(c.n.In)), "every path of DB.Close to this Close passes File.Sync on the same file, with no write in between", true)
+			var rel []Node
+			for n := range all.Reached {
+				if _, isReg := n.In.(*ssa.Defer); isReg {
+					continue
+				}
+				if l, op := lockOp(nodeCall(n)); l == "mu" && (op == "Unlock" || op == "RUnlock") {
+					rel = append(rel, n)
+				}
+			}
+			if len(rel) > 0 {
+				w4 := &IPWalk{P: p, Visit: func(n Node) bool {
+					e := fsEventOf(n)
+					return isFileEvent(e, "Sync") && e.Recv.Key() == key
+				}}
+				w4.Run(root, rel)
+				if w4.Reached[c.n] {
+					dirty = true
+					r.bad(rule, construct, p.Pos(instrPos(c.n.In)), "DB.mu is released between the file's last Sync and its Close: a Put or Delete queued on the mutex runs in the gap, is acknowledged, and its write to this file is never synced before the lock file is removed", w4.PathTo(c.n)...)
+				}
+			}
+		}
+		if !dirty {
+			r.ok(rule, construct, p.Pos(instrPos(c.n.In)), "every path of DB.Close to this Close passes File.Sync on the same file, with no write and no release of DB.mu in between", true)
 		}
 	}
 }
